@@ -6,6 +6,8 @@ import (
 	"sort"
 	"strings"
 
+	"golang.org/x/tools/go/ssa"
+
 	"pdfverif/internal/core"
 )
 
@@ -25,6 +27,7 @@ func runC17(c *core.Ctx) {
 	const pk = "pdf/internal/pdftree"
 	defer rulePutOwnsObject(c)
 	defer ruleIteratorStateFresh(c)
+	defer ruleReadersPure(c)
 	c.Check("C17-R1", pk+".node-shapes", "every non-root node is written with /Limits and no root is: the dictionary literals of the leaf/intermediate writers contain Limits, those of the root writers do not", func(o *core.Ob) {
 		pkg := c.Prog.Pkg(pk)
 		nNodes, nRoots := 0, 0
@@ -421,4 +424,68 @@ func mutatesObj(c *core.Ctx, fn *core.Func, root ast.Node, obj types.Object, dep
 		return true
 	})
 	return found
+}
+
+// ruleReadersPure (C17-R9): looking a key up and enumerating a tree are
+// functions of the tree alone.  The reading-side methods of InMemory and
+// FromFile (All, Lookup, Size and the helpers they call) store nothing
+// through their receiver: a cache filled on first use goes stale when the
+// map behind an InMemory tree is edited and the tree is written again.
+func ruleReadersPure(c *core.Ctx) {
+	const pk = "pdf/internal/pdftree"
+	pkg := c.Prog.Pkg(pk)
+	var ma *core.MutAnalysis
+	n := 0
+	for _, fn := range c.Prog.Funcs(pkg) {
+		fn := fn
+		if fn.Decl.Recv == nil || len(fn.Decl.Recv.List) != 1 || len(fn.Decl.Recv.List[0].Names) != 1 {
+			continue
+		}
+		rt := fn.Info().TypeOf(fn.Decl.Recv.List[0].Type)
+		if !(core.IsNamed(rt, pk, "InMemory") || core.IsNamed(rt, pk, "FromFile")) {
+			continue
+		}
+		n++
+		c.Check("C17-R9", fn.Key+"/pure", "the reading-side method stores nothing through its receiver (SSA may-write analysis, including the iterator closures it returns)", func(o *core.Ob) {
+			if ma == nil {
+				ma = core.NewMutAnalysis(c.Prog)
+				ma.ImplPkgs[core.ModulePath] = true
+			}
+			sf := ma.S.FuncValue(fn.Obj)
+			if sf == nil || len(sf.Params) == 0 {
+				core.Undecided("no SSA function for %s", fn.Key)
+			}
+			o.At(fn.Site(fn.Decl, "receiver "+sf.Params[0].Name()))
+			report := func(ws []core.MutWitness) {
+				seen := map[string]bool{}
+				for _, w := range ws {
+					pos := c.Prog.Pos(w.Pos)
+					if seen[pos+w.What] {
+						continue
+					}
+					seen[pos+w.What] = true
+					o.Sites = append(o.Sites, core.Site{Pos: pos, Func: w.Fn, Note: w.What})
+					o.Fail("%s: %s in %s (call chain: %s)", pos, w.What, w.Fn, strings.Join(w.Chain, " -> "))
+				}
+			}
+			o.Count(1)
+			report(ma.Mutations(sf, []ssa.Value{sf.Params[0]}, nil))
+			recvName := sf.Params[0].Name()
+			var anons func(f *ssa.Function)
+			anons = func(f *ssa.Function) {
+				for _, af := range f.AnonFuncs {
+					for _, fv := range af.FreeVars {
+						if fv.Name() == recvName {
+							o.Count(1)
+							report(ma.Mutations(af, []ssa.Value{fv}, nil))
+						}
+					}
+					anons(af)
+				}
+			}
+			anons(sf)
+		})
+	}
+	c.Floor("C17-R9", 4)
+	_ = n
 }
